@@ -676,10 +676,21 @@ func (g *Gen) instrRange(f *Frame, i *ssa.Range) {
 	g.set(f.st, "IT", fmt.Sprintf("(store %s %s 0)", g.get(f.st, "IT"), r))
 	n := g.define(f.name(i), "Int", r)
 	f.vals[i] = Term{n, "Int", nil}
-	f.rangeOf(i)
+	if mt, ok := types.Unalias(i.X.Type()).Underlying().(*types.Map); ok {
+		// ghost: the set of keys already produced by this iterator
+		vc, ks := g.visitedComp(mt)
+		g.set(f.st, vc, fmt.Sprintf("(store %s %s ((as const (Array %s Bool)) false))", g.get(f.st, vc), r, ks))
+	}
 }
 
-func (f *Frame) rangeOf(i *ssa.Range) {}
+// visitedComp: per map-iterator ghost set of the keys already produced.
+func (g *Gen) visitedComp(mt *types.Map) (comp, ksort string) {
+	ksort = g.d.sortOf(mt.Key())
+	comp = "ITV$" + compTypeName(mt.Key())
+	g.compDecl(comp, "(Array Int (Array "+ksort+" Bool))")
+	return
+}
+
 
 func (g *Gen) instrNext(f *Frame, i *ssa.Next) {
 	rng, ok := i.Iter.(*ssa.Range)
@@ -708,6 +719,15 @@ func (g *Gen) instrNext(f *Frame, i *ssa.Next) {
 	kn := g.fresh(f.name(i) + ".k")
 	g.declare(kn, ks)
 	g.assume(f.en, fmt.Sprintf("(=> %s (and (not (= %s 0)) (select (select %s %s) %s)))", okn, x.S, g.get(f.st, has), x.S, kn))
+	// every key is produced exactly once: the key is new, and the iteration ends only when all keys were produced
+	// (the loop body is assumed not to insert into or delete from the map it ranges over)
+	vc, _ := g.visitedComp(mt)
+	vis := fmt.Sprintf("(select %s %s)", g.get(f.st, vc), it.S)
+	g.assume(f.en, fmt.Sprintf("(=> %s (not (select %s %s)))", okn, vis, kn))
+	g.nfresh++
+	qk := fmt.Sprintf("mk%d", g.nfresh)
+	g.assume(f.en, fmt.Sprintf("(=> (not %s) (forall ((%s %s)) (=> (and (not (= %s 0)) (select (select %s %s) %s)) (select %s %s))))", okn, qk, ks, x.S, g.get(f.st, has), x.S, qk, vis, qk))
+	g.set(f.st, vc, fmt.Sprintf("(store %s %s (ite %s (store %s %s true) %s))", g.get(f.st, vc), it.S, okn, vis, kn, vis))
 	vn := g.defFresh(f.name(i)+".v", vs, fmt.Sprintf("(select (select %s %s) %s)", g.get(f.st, val), x.S, kn))
 	f.tuples[i] = []Term{{okn, "Bool", types.Typ[types.Bool]}, {kn, ks, mt.Key()}, {vn, vs, mt.Elem()}}
 	g.typeFacts(and(f.en, okn), f.tuples[i][1], g.now(f.st), true)
